@@ -71,6 +71,42 @@ class RefWalker(WalkMapper):
     def post_visit(self, expr):
         pass
 
+
+class OptAliasTargets(CachedIdentityMapper):
+    """Overrides handlers that the base classes ALSO use as the target of an alias
+    (map_remainder = map_quotient, map_right_shift = map_left_shift, map_bitwise_xor =
+    map_bitwise_or ...): the override is for the one node type, the aliases keep the base
+    behaviour."""
+
+    def map_quotient(self, expr):
+        from pymbolic.primitives import Power, Product
+        return Product((self.rec(expr.numerator), Power(self.rec(expr.denominator), -1)))
+
+    def map_left_shift(self, expr):
+        from pymbolic.primitives import Power, Product
+        return Product((self.rec(expr.shiftee), Power(2, self.rec(expr.shift))))
+
+    def map_bitwise_or(self, expr):
+        from pymbolic.primitives import Max
+        return Max(tuple(self.rec(c) for c in expr.children))
+
+    def get_cache_key(self, expr):
+        return (type(expr), expr)
+
+
+class RefAliasTargets(IdentityMapper):
+    def map_quotient(self, expr):
+        from pymbolic.primitives import Power, Product
+        return Product((self.rec(expr.numerator), Power(self.rec(expr.denominator), -1)))
+
+    def map_left_shift(self, expr):
+        from pymbolic.primitives import Power, Product
+        return Product((self.rec(expr.shiftee), Power(2, self.rec(expr.shift))))
+
+    def map_bitwise_or(self, expr):
+        from pymbolic.primitives import Max
+        return Max(tuple(self.rec(c) for c in expr.children))
+
 # }}}
 
 
